@@ -140,6 +140,59 @@ def operator_failure_returns():
     return rows
 
 
+def literal(e):
+    if isinstance(e, ast.Constant) and not isinstance(e.value, str):
+        return repr(e.value)
+    if isinstance(e, ast.Call) and dotted(e.func) == "float" and e.args and isinstance(e.args[0], ast.Constant):
+        return "float(%r)" % e.args[0].value
+    return None
+
+
+def get_defaults(fn, var):
+    """`var.get("key", <literal>)` calls in a function body -> {key: default}"""
+    out = {}
+    for c in ast.walk(fn):
+        if isinstance(c, ast.Call) and isinstance(c.func, ast.Attribute) and c.func.attr == "get" and dotted(c.func.value) == var \
+                and len(c.args) == 2 and isinstance(c.args[0], ast.Constant) and literal(c.args[1]) is not None:
+            out[c.args[0].value] = literal(c.args[1])
+    return out
+
+
+def option_defaults():
+    """for every class: option keys that have a literal default BOTH in the JSON layer (`data.get(key, d)` in from_json /
+    `_parse_json`) and in the constructor (signature default or `kwargs.get(key, d)` in __init__ of the class or of
+    MCMCOperator) -> rows (class, key, json default, constructor default)"""
+    import importlib
+
+    rows = []
+    base = class_node("torchtree.inference.mcmc.operator", "MCMCOperator")
+    base_fns = {n.name: n for n in base.body if isinstance(n, ast.FunctionDef)}
+    for mod, cname in CTOR_CLASSES:
+        if cname == "MCMCOperator":
+            continue
+        cn = class_node(mod, cname)
+        fns = {n.name: n for n in cn.body if isinstance(n, ast.FunctionDef)}
+        is_op = any(dotted(b) in ("MCMCOperator",) for b in cn.bases)
+        js = {}
+        if "from_json" in fns:
+            js.update(get_defaults(fns["from_json"], "data"))
+            if is_op and "_parse_json" in ast.unparse(fns["from_json"]):
+                js.update(get_defaults(base_fns["_parse_json"], "data"))
+        ct = {}
+        for fn in ([fns["__init__"]] if "__init__" in fns else []) + ([base_fns["__init__"]] if is_op else []):
+            args = fn.args.args
+            dfl = [None] * (len(args) - len(fn.args.defaults)) + list(fn.args.defaults)
+            for a, d in zip(args, dfl):
+                if d is not None and literal(d) is not None:
+                    ct.setdefault(a.arg, literal(d))
+            for k, v in get_defaults(fn, "kwargs").items():
+                ct.setdefault(k, v)
+        for k in sorted(js):
+            if k in ct:
+                rows.append((cname, k, js[k], ct[k]))
+    return rows
+
+
 def mutable_defaults():
     """constructor arguments whose default is a mutable object, and whether the constructor body mutates it
     (directly or through `self.<attr> = <arg>` aliases): append/extend/insert/update/add/+=/item assignment"""
@@ -200,7 +253,7 @@ def kw(call, name):
 def translate(repo=None):
     notes, initial, order = [], [], []
     decide_ok = accept_ok = False
-    tests, op_returns, mdefaults = [], [], []
+    tests, op_returns, mdefaults, optrows = [], [], [], []
     try:
         from torchtree.inference.mcmc.mcmc import MCMC
 
@@ -282,6 +335,7 @@ def translate(repo=None):
             raise Unrecognised("statement in the loop body: " + src.splitlines()[0][:80])
         op_returns = operator_failure_returns()
         mdefaults = mutable_defaults()
+        optrows = option_defaults()
     except Unrecognised as e:
         notes.append(str(e))
     except Exception as e:
@@ -306,6 +360,10 @@ def translate(repo=None):
              "/-- constructor arguments with a mutable default: (class, argument, default, the constructor mutates it) -/",
              "def mutableDefaults : List (String × String × String × Bool) := ["
              + ", ".join('("%s", "%s", "%s", %s)' % (c, a, d.replace('"', "'"), "true" if m_ else "false") for c, a, d, m_ in mdefaults) + "]", "",
+             "/-- option keys with a literal default both in the JSON layer and in the constructor:",
+             "    (class, key, default used by from_json when the key is absent, default of the constructor) -/",
+             "def optionDefaults : List (String × String × String × String) := ["
+             + ", ".join('("%s", "%s", "%s", "%s")' % r for r in optrows) + "]", "",
              "end TTGen.C15_RunOrder", ""]
     return "\n".join(lines), ok, "; ".join(notes)
 
